@@ -469,16 +469,8 @@ handler(lambda rj: rj["job"].startswith("op:"))(replay_op)
 handler(lambda rj: rj["job"].startswith("core:apply_constraint"))(replay_apply_constraint)
 
 
-def main():
-    path = sys.argv[1]
+def replay_one(path):
     rj = json.load(open(path))
-    # optional extra handlers (kept in separate files per family)
-    for extra in ("replay_scalar", "replay_formats", "replay_objects", "replay_c16"):
-        try:
-            mod = __import__(extra)
-            mod.install(handler, globals())
-        except ImportError:
-            pass
     for pred, fn in HANDLERS:
         try:
             ok = pred(rj)
@@ -488,8 +480,30 @@ def main():
             reproduced, detail = fn(rj)
             print(f"replay {rj['obligation']} @ {rj['job']}: {'REPRODUCED' if reproduced else 'not reproduced'}: {detail}")
             return 1 if reproduced else 0
-    print(f"replay: no handler for {rj['job']} / {rj['obligation']}; verifier output kept in the replay file")
+    print(f"replay: no handler for {rj.get('job')} / {rj.get('obligation')}; verifier output kept in the replay file")
     return 0
+
+
+def main():
+    """replay.py FILE            -> exit 1 iff the violation is reproduced on the real code
+    replay.py --batch FILE...   -> one line `RESULT <0|1|E> <path>` per file after its output (exit 0)"""
+    # optional extra handlers (kept in separate files per family)
+    for extra in ("replay_scalar", "replay_formats", "replay_objects", "replay_c16"):
+        try:
+            mod = __import__(extra)
+            mod.install(handler, globals())
+        except ImportError:
+            pass
+    if sys.argv[1] == "--batch":
+        for path in sys.argv[2:]:
+            try:
+                r = str(replay_one(path))
+            except Exception as e:  # a crashing replay reproduces nothing
+                print(f"replay crashed: {type(e).__name__}: {e}")
+                r = "E"
+            print(f"RESULT {r} {path}", flush=True)
+        return 0
+    return replay_one(sys.argv[1])
 
 
 if __name__ == "__main__":
